@@ -419,9 +419,21 @@ def h_aux_rotation(env, key):
         stored = np.array(m.mo_coeff, dtype=float).copy()
         e1, M1 = lowest(C)
         e2, _ = lowest(None)
+        # the same rotation through the documented setter; afterwards the CALLER's array is overwritten in place (it is the
+        # caller's): the molecule keeps the coefficients it was given at assignment time
+        m.mo_coeff = C
+        given = C.copy()
+        e3, _ = lowest(None)
+        C[:, :] = 0.0
+        kept = float(np.abs(np.array(m.mo_coeff, dtype=float) - given).max())
+        e4, _ = lowest(None) if kept == 0.0 else (float("nan"), None)
+        m.mo_coeff = stored
     env.check_true(abs(e1 - e0) < 1e-8, f"lowest sector eigenvalue is invariant under a rotation of active orbitals {i},{j} passed as mo_coeff= [{key}]", detail=f"{e1} vs {e0}")
     env.check_true(float(np.abs(M1 - M0).max()) > 1e-6, "the rotated coefficients were used (matrix elements differ)")
-    env.check_true(abs(e2 - e0) < 1e-12 and float(np.abs(np.array(m.mo_coeff, dtype=float) - stored).max()) == 0.0, "the molecule's own coefficients are untouched by the call")
+    env.check_true(abs(e2 - e0) < 1e-12, "the molecule's own coefficients are untouched by the call with mo_coeff=")
+    env.check_true(abs(e3 - e0) < 1e-8, f"lowest sector eigenvalue is invariant under the same rotation assigned through molecule.mo_coeff = C [{key}]", detail=f"{e3} vs {e0}")
+    env.check_true(kept == 0.0 and abs(e4 - e3) < 1e-12, "after molecule.mo_coeff = C the molecule does not follow later in-place changes of the caller's array C",
+                   detail=f"max change of the stored coefficients {kept}")
 
 
 def shapes(tier, seed):
